@@ -71,6 +71,57 @@ CLAIMS.update({
     ),
 })
 
+CLAIMS.update({
+    'C03': (
+        'inter-procedural effect summaries (alias-aware, closures, exposers, registry dispatch) + shape rules on the rebuild code',
+        'Decides: (PURE) the circuit argument of every Transformer._transform, of the helpers they delegate to, of cleanup and of apply_transformers/transform is never mutated, '
+        'directly, through hook closures, through exposers (circuit.outputs.sort()) or through callees (fixpoint over the call graph); (FRESH) each pass returns a Circuit() allocated '
+        'in that call; (IFACE) set_outputs gets circuit.outputs or an element-wise order-preserving image, set_inputs gets circuit.inputs in order (RemoveRedundantGates: filtered by presence, '
+        'with the complement re-added unless input removal was requested); (EMIT) every rebuilt gate keeps label, type and operand order of the visited gate, nothing is invented, hence no '
+        'more gates than the argument; (SYM) signatures sort operands only under is_symmetric; (UNARY) operand getters and the two unary families agree with the operators. '
+        'Not decided: parity bookkeeping / representative choice, i.e. truth-table equality itself.',
+        'DESIGN.md 4 C03',
+    ),
+    'C10': (
+        'effect summary for the attached circuit + shape rules on connect_circuit and its five wrappers',
+        'Decides the structural clauses of composition: the attached circuit is never mutated; new outputs/inputs are the documented order-preserving concatenations; attached gates are emitted '
+        'in dependency order with type kept and operands mapped element-wise through one label map seeded with the connector pairs; connectors that are replaced must be inputs; the map keys must be the list '
+        'validated duplicate-free (known finding F11 for right_connect); every attached non-input gate joins the named block whose inputs/outputs are the mapped interface; the five wrappers pass the documented arguments. '
+        'Not decided: truth-table equality of the composition, Block.into_circuit round trip.',
+        'DESIGN.md 4 C10',
+    ),
+    'C13': (
+        'effect summary + guard-context arity reasoning + wiring shape rules on build_miter',
+        'Decides: left/right are not mutated; the shape guard raises MiterDifferentShapesError when input_size OR output_size differ before anything is built; right inputs are fed by the left block inputs in order; '
+        'the xor block receives left outputs then right outputs against inputs declared as all x then all y, xor_i = XOR(x_i, y_i); the single output is a gate that is the disjunction of all xor outputs and whose arity is legal '
+        'for every output count reachable under the dominating guards (0, 1, >= 2). Not decided: evaluation of the composed circuit (C10 clause).',
+        'DESIGN.md 4 C13',
+    ),
+    'C18': (
+        'shape rules on Transformer linearisation/fold and field-coverage of __eq__ for idempotent passes',
+        'Decides the pipeline clause structurally: as_distinct yields pre, self, post; compositions keep list order; | keeps textual order; apply_transformers is the left fold of _transform from the argument; '
+        'transform and cleanup delegate to it with the documented lists; the idempotent-skip is sound (skipped only if idempotent and equal to the previous one; every field read by an idempotent _transform is compared by __eq__; '
+        'compositions never equal); merging passes declare RemoveRedundantGates as post-transformer; RemoveRedundantGates emits exactly in the exit hook of a DFS from the outputs. '
+        'Not decided: post-conditions of the merging passes (no duplicate signature / equal tables / double negation).',
+        'DESIGN.md 4 C18',
+    ),
+    'C19': (
+        'folding of rename_gate/replace_inputs/_remove_gate over model states + precondition/ordering rules on replace_subcircuit',
+        'Decides: rename_gate equals label substitution in every label-holding field (gate map, operand tuples, users keys and members, inputs, all output occurrences, all block lists) for every membership pattern, refused renames leave the state untouched; '
+        'replace_inputs turns exactly the named inputs into ALWAYS_TRUE/ALWAYS_FALSE (operators constant), keeps the order of the remaining inputs and refuses non-inputs - with C01 this is the cofactor; remove_gate validates existence and no users and '
+        'removes the gate from outputs, inputs, index and blocks; replace_subcircuit checks every documented precondition before its first mutation, saves outputs and external users before removing the block, restores them after re-insertion and exits only through the cycle check. '
+        'Not decided: truth-table preservation of replace_subcircuit.',
+        'DESIGN.md 4 C19',
+    ),
+    'C20': (
+        'state-machine shape rules over the traversal loop, duality of the getters, Kahn-loop shape',
+        'Narrow structural claim: every TraverseState member has a branch (else raises); enter hook precedes ENTERED and the single yield; children are discovered and enqueued iff UNVISITED; exit hook only on the ENTERED revisit followed by VISITED and pop; '
+        'BFS finishes a gate at once; both modes and the three start-set cases handled; unvisited hook gets exactly UNVISITED gates in the requested order; top_sort and the traversal pick dual relations under the same inverse test; Kahn loop decrements once per successor occurrence, '
+        'enqueues at zero and yields every dequeued gate; the cycle check raises exactly on an ENTERED gate in the discover hook of the default DFS. Not decided: algorithmic correctness of the loops (exact reachability, post-order).',
+        'DESIGN.md 4 C20',
+    ),
+})
+
 PENDING = 'check under construction in this session (see DESIGN.md section 4); not claimed until its rules run clean'
 
 ALL = [f'C{i:02d}' for i in range(1, 21)]
